@@ -9,6 +9,7 @@
 import FordModel.ProjectLoop
 import FordModel.Lemmas.ProjectLoop
 import FordModel.Lemmas.Nesting
+import FordModel.Lemmas.Backtrack
 namespace Ford.C20
 open Ford
 
@@ -238,6 +239,87 @@ theorem recursion_depth_bounded (cfg : Cfg) (ss : List Stmt) (st : MS) (h : run 
   | nil => exact absurd hs this
   | cons a b => simp
 
+
+/-! ## never hangs, II: the regular expressions applied to every statement -/
+
+/-- **The matcher and its ways.**  The backtracking matcher of the model (`Rx.matchK`: try the
+    ways of the expression one after the other, hand the rest to the continuation, stop at
+    the first success - this is what the driver runs against `re` in the correspondence)
+    succeeds exactly when the continuation accepts one of `Rx.paths`; when the continuation
+    rejects them all, it has been called on every one of them: `(paths r s).length` is what a
+    failure costs. -/
+theorem matcher_walks_paths (n0 : Nat) (r : Rx) (s : Str) (k : Str → Bool) :
+    Rx.matchK n0 r s k = (Rx.paths n0 r s).any k :=
+  Rx.matchK_eq_any n0 r s k
+
+/-- **One way only.**  An expression of the `functional` class (fixed sequences of character
+    sets, alternatives that start with different characters, a run of one character set
+    closed by something that starts outside the set) has at most one way to match, at any
+    position of any subject. -/
+theorem functional_body_single_way (n0 : Nat) (a : Rx) (h : Rx.functional a = true) (s : Str) :
+    (Rx.paths n0 a s).length ≤ 1 :=
+  Rx.functional_le_one n0 a h s
+
+/-- **A loop over such a body is linear.**  Whatever the bounds of the repetition, the
+    number of ways the loop can match at a position - what a backtracking matcher walks
+    through when the rest of the pattern fails - is at most the number of characters left
+    plus one: no subject, however long or corrupt, makes it blow up. -/
+theorem functional_loop_linear (n0 : Nat) (a : Rx) (h : Rx.functional a = true) (lo : Nat) (hi : Option Nat)
+    (s : Str) : (Rx.paths n0 (.rep lo hi a) s).length ≤ s.length + 1 := by
+  simp only [Rx.paths]
+  exact Rx.iter_linear _ (Rx.functional_le_one n0 a h) lo hi _ _ _
+
+/-- **The patterns FORD applies while it reads and parses a file** (generated table
+    `Gen.patterns`: every compiled pattern of ford/reader.py, ford/sourceform.py, ford/utils.py,
+    ford/fortran_project.py, the ones built at run time and the inline ones, as `re` parses
+    them): in every pattern outside the listed finding, every loop that can be entered again
+    after a failure has a `functional` body.  Partial: `knownBacktracking` (the component
+    chain of `CALL_RE`, finding C20-call-chain-backtracking) is excluded. -/
+theorem statement_patterns_loops_functional_partial :
+    ∀ p ∈ Gen.patterns, p.1 ∉ knownBacktracking → Rx.badLoops p.2 = [] := by
+  decide +kernel
+
+/-- ... hence, for every such pattern, every loop that can be re-entered after a failure
+    has at most `|s| + 1` ways to match, at every position of every statement `s`:
+    none of them can make FORD hang on any input. -/
+theorem statement_patterns_loops_linear_partial (p : Str × Rx) (hp : p ∈ Gen.patterns)
+    (hk : p.1 ∉ knownBacktracking) (a : Rx) (ha : a ∈ Rx.loopsCF p.2 true) (lo : Nat) (hi : Option Nat)
+    (n0 : Nat) (s : Str) : (Rx.paths n0 (.rep lo hi a) s).length ≤ s.length + 1 := by
+  apply functional_loop_linear
+  have hb := statement_patterns_loops_functional_partial p hp hk
+  simp only [Rx.badLoops, List.filter_eq_nil_iff] at hb
+  simpa using hb a ha
+
+/-- **Witness (finding C20-call-chain-backtracking).**  The loop
+    `(?:\s*\w+\s*(?:\(\))?\s*%\s*)+` of `CALL_RE` as it is: the blanks around a `%` can be
+    given to either of two `\s*`, so `a % ` has 4 ways, `a % a % ` 20, `a % a % a % ` 84 ...:
+    a chain of component accesses that is not followed by `name(` costs a number of steps
+    that is exponential in the length of the chain. -/
+theorem call_chain_backtracking_witness :
+    let sp := Rx.cls 0x100003e00
+    let w := Rx.cls 0x7fffffe87fffffe03ff000000000000
+    let body := seqs [.rep 0 none sp, .rep 1 none w, .rep 0 none sp,
+                      .rep 0 (some 1) (seqs [.cls 0x10000000000, .cls 0x20000000000]),
+                      .rep 0 none sp, .cls 0x2000000000, .rep 0 none sp]
+    Rx.functional body = false
+    ∧ Rx.ways (.rep 1 none body) ['a', ' ', '%', ' '] = 4
+    ∧ Rx.ways (.rep 1 none body) ['a', ' ', '%', ' ', 'a', ' ', '%', ' '] = 20
+    ∧ Rx.ways (.rep 1 none body) ['a', ' ', '%', ' ', 'a', ' ', '%', ' ', 'a', ' ', '%', ' '] = 84 := by
+  decide +kernel
+
+/-- **Witness: what the table theorem excludes.**  A list loop `(?:\w+,?\s*)+` (names, the
+    comma optional) is harmless at the very end of a pattern - nothing after it can fail, so
+    it is never re-entered (`badLoops` is empty) - but once anything that can fail follows it
+    (here `$`), the loop is re-entered and the number of ways doubles with every character of a
+    name: 1, 3, 7, ... 2^n - 1. -/
+theorem ambiguous_list_loop_witness :
+    let w := Rx.cls 0x7fffffe87fffffe03ff000000000000
+    let loop := Rx.rep 1 none (seqs [.rep 1 none w, .rep 0 (some 1) (.cls 0x100000000000), .rep 0 none (.cls 0x100003e00)])
+    Rx.badLoops loop = [] ∧ Rx.badLoops (.seq loop .eos) ≠ []
+    ∧ Rx.ways loop ['a', '='] = 1 ∧ Rx.ways loop ['a', 'a', '='] = 3
+    ∧ Rx.ways loop ['a', 'a', 'a', '='] = 7 ∧ Rx.ways loop ['a', 'a', 'a', 'a', 'a', 'a', 'a', 'a', '='] = 255 := by
+  decide +kernel
+
 /-! ## reported ≠ skipped: the defect and what holds around it -/
 
 /-- **Witness (finding C20-reported-not-skipped).**  With the default settings a
@@ -311,6 +393,9 @@ example : Gen.eofProbes.length ≥ 12 ∧ (Gen.eofProbes.any (fun p => p.2 != .i
 example : readerObs Marks.default [['m'], ['!', '>', ' ', 'd']] = .items [['m']] := by decide
 example : (opened {} [⟨.module, ['m']⟩, ⟨.contains, []⟩, ⟨.subroutine, ['s']⟩, ⟨.use, ['x']⟩])
     = [(.file, .module, ['m']), (.module, .subroutine, ['s'])] := by decide
+example : Gen.patterns.length ≥ 50 ∧ (Gen.patterns.map (fun p => (Rx.loopsCF p.2 true).length)).sum ≥ 150 := by decide +kernel
+example : Gen.patterns.any (fun p => (Rx.loopsCF p.2 true).any (fun a => match a with | .cls _ => false | _ => true)) = true := by
+  decide +kernel
 example : parseFile { dbg := false } [⟨.contains, []⟩] = .skipped .printError [] := by decide
 example : parseFile { skipReported := true } [⟨.contains, []⟩] = .skipped .reported [.unexpectedContains] := by decide
 
